@@ -5,7 +5,7 @@ import CirqVerif.Model.C12
 namespace CirqVerif.C12
 
 /-- the scoping pass neither drops, duplicates nor reorders operations, and leaves qubits alone -/
-theorem C12_scopePass_structure (measured : List (Key × List (List Nat × Nat))) (ops : List RawOp) :
+theorem C12_scopePass_structure (measured : List (Key × List Stamp)) (ops : List RawOp) :
     (scopePassS measured ops).map (fun o => (o.id, o.qubits, o.inverted))
       = ops.map (fun o => (o.id, o.qubits, o.inverted)) := by
   induction ops generalizing measured with
@@ -13,7 +13,7 @@ theorem C12_scopePass_structure (measured : List (Key × List (List Nat × Nat))
   | cons o os ih => simp [scopePassS, ih]
 
 /-- every measurement key of the unrolled form is the written key prefixed by the scopes it sits in -/
-theorem C12_scopePass_mkeys (measured : List (Key × List (List Nat × Nat))) (ops : List RawOp) :
+theorem C12_scopePass_mkeys (measured : List (Key × List Stamp)) (ops : List RawOp) :
     (scopePassS measured ops).map (·.mkey) = ops.map (fun o => o.mkey.map (fun k => k.prefixed o.scope)) := by
   induction ops generalizing measured with
   | nil => rfl
@@ -29,13 +29,13 @@ theorem C12_flat_is_dynamic (measured : List Key) (ops : List RawOp)
     have ho : o.stamps = [] := (h o (by simp)).1
     have hc : ∀ c ∈ o.conds, c.stamps = [] := (h o (by simp)).2
     have hos : ∀ o' ∈ os, o'.stamps = [] ∧ ∀ c ∈ o'.conds, c.stamps = [] := fun o' ho' => h o' (by simp [ho'])
-    have hvis : ∀ c ∈ o.conds, ((measured.map (fun k => (k, ([] : List (List Nat × Nat))))).filter
-        (fun m => visible m.2 c.stamps)).map (·.1) = measured := by
+    have hvis : ∀ c ∈ o.conds, ((measured.map (fun k => (k, ([] : List Stamp)))).filter
+        (fun m => visible m.1 m.2 c.stamps)).map (·.1) = measured := by
       intro c hcm
       rw [hc c hcm]
-      simp [visible, List.filter_eq_self.mpr, Function.comp_def]
+      simp [visible, visibleAux, List.filter_eq_self.mpr, Function.comp_def]
     have hconds : o.conds.map (fun c =>
-          (bindCond c.scope (((measured.map (fun k => (k, ([] : List (List Nat × Nat))))).filter (fun m => visible m.2 c.stamps)).map (·.1)) c.key, c.index))
+          (bindCond c.scope (((measured.map (fun k => (k, ([] : List Stamp)))).filter (fun m => visible m.1 m.2 c.stamps)).map (·.1)) c.key, c.index))
         = o.conds.map (fun c => (bindCond c.scope measured c.key, c.index)) := by
       apply List.map_congr_left
       intro c hcm
@@ -55,19 +55,50 @@ theorem C12_controlled_subcircuit (fuel : Nat) (pos : List Nat) (c : CircOp) (co
           { o with conds := conds.map (fun (k, i) => ({ key := k, index := i } : RawCond)) ++ o.conds }) := by
   simp [rawNode]
 
-/-- a measurement made inside a sibling sub-circuit instance, or in another iteration of an enclosing loop, is not a
-binding candidate: its instance chain is not a prefix of the condition's -/
-theorem C12_sibling_not_visible (common : List (List Nat × Nat)) (a b : List Nat × Nat) (ra rb : List (List Nat × Nat))
-    (h : a ≠ b) : visible (common ++ a :: ra) (common ++ b :: rb) = false := by
-  induction common with
-  | nil => simp [visible, List.isPrefixOf, h]
-  | cons c cs ih => simpa [visible, List.isPrefixOf] using ih
+theorem visibleAux_append (len acc : Nat) (common m c : List Stamp) :
+    visibleAux len acc (common ++ m) (common ++ c) = visibleAux len (acc + (common.map (·.2.2)).sum) m c := by
+  induction common generalizing acc with
+  | nil => simp
+  | cons x xs ih => simp [visibleAux, ih, Nat.add_assoc]
 
-/-- measurements directly in the body of an enclosing instance (or at top level) are candidates -/
-theorem C12_enclosing_visible (outer inner : List (List Nat × Nat)) : visible outer (outer ++ inner) = true := by
-  induction outer with
-  | nil => simp [visible, List.isPrefixOf]
-  | cons c cs ih => simpa [visible, List.isPrefixOf] using ih
+/-- a measurement made in another iteration of an enclosing loop is not a binding candidate (the body of a loop is
+scoped once per iteration, from what was recorded outside the loop) … -/
+theorem C12_other_iteration_not_visible (mkey : Key) (common : List Stamp) (pos : List Nat) (i j si sj : Nat)
+    (ra rb : List Stamp) (h : i ≠ j) :
+    visible mkey (common ++ (pos, i, si) :: ra) (common ++ (pos, j, sj) :: rb) = false := by
+  simp [visible, visibleAux_append, visibleAux, h]
+
+/-- … nor is one made inside a sibling sub-circuit whose key path is longer than the scope path of the body the two
+sub-circuits stand in — the sibling has repetition ids or a parent path … -/
+theorem C12_scoped_sibling_not_visible (mkey : Key) (common : List Stamp) (a b : Stamp) (ra rb : List Stamp)
+    (h : a.1 ≠ b.1) (hlen : (common.map (·.2.2)).sum < mkey.path.length) :
+    visible mkey (common ++ a :: ra) (common ++ b :: rb) = false := by
+  have hab : a ≠ b := fun e => h (by rw [e])
+  simp [visible, visibleAux_append, visibleAux, h, hab]; omega
+
+/-- … whereas one made inside an earlier sibling that adds no scope of its own is (`len(k.path) <= len(path)` lets
+it through) … -/
+theorem C12_unscoped_sibling_visible (mkey : Key) (common : List Stamp) (a b : Stamp) (ra rb : List Stamp)
+    (h : a.1 ≠ b.1) (hlen : mkey.path.length ≤ (common.map (·.2.2)).sum) :
+    visible mkey (common ++ a :: ra) (common ++ b :: rb) = true := by
+  have hab : a ≠ b := fun e => h (by rw [e])
+  simp [visible, visibleAux_append, visibleAux, h, hab]; omega
+
+/-- … and so are the measurements made directly in the body of an enclosing instance (or at top level) under a key
+whose path is the scope path of that body. -/
+theorem C12_enclosing_visible (mkey : Key) (outer inner : List Stamp)
+    (hlen : mkey.path.length ≤ (outer.map (·.2.2)).sum) : visible mkey outer (outer ++ inner) = true := by
+  have := visibleAux_append mkey.path.length 0 outer [] inner
+  simp only [List.append_nil] at this
+  rw [visible, this]
+  cases inner <;> simp [visibleAux]; omega
+
+/-- a condition standing in the same body as an (earlier) sub-circuit sees everything that sub-circuit records -/
+theorem C12_same_body_visible (mkey : Key) (outer inner : List Stamp) : visible mkey (outer ++ inner) outer = true := by
+  have := visibleAux_append mkey.path.length 0 outer inner []
+  simp only [List.append_nil] at this
+  rw [visible, this]
+  cases inner <;> simp [visibleAux]
 
 /-- **A condition refers to the measurement it is scoped to**: if the key has been measured in the innermost
 enclosing scope, the condition binds to that measurement … -/
